@@ -802,6 +802,16 @@ namespace xtl
      * xcomplex operators implementation *
      *************************************/
 
+    // Found by ADL: the generic std::swap would keep a second xcomplex on the
+    // referents of lhs as its temporary when the closures are references.
+    template <class CTR, class CTI, bool B>
+    inline void swap(xcomplex<CTR, CTI, B>& lhs, xcomplex<CTR, CTI, B>& rhs)
+    {
+        using std::swap;
+        swap(lhs.real(), rhs.real());
+        swap(lhs.imag(), rhs.imag());
+    }
+
     template <class CTR1, class CTI1, bool B1, class CTR2, class CTI2, bool B2>
     inline bool operator==(const xcomplex<CTR1, CTI1, B1>& lhs, const xcomplex<CTR2, CTI2, B2>& rhs) noexcept
     {
